@@ -533,6 +533,18 @@ func (e *specEnv) evalCall(n ECall) Val {
 			return Val{S: "true", Sort: "Bool"}
 		}
 		return Val{S: "false", Sort: "Bool"}
+	case "visited":
+		// visited(k): the enclosing range-over-map loop has already produced key k (loop invariants only)
+		it, ok := e.vars["$iter"]
+		if !ok || len(n.Args) != 1 {
+			e.fail("visited(k) is only available in the invariant of a range-over-map loop")
+		}
+		k := e.eval(n.Args[0])
+		cls := "ghost:$visited:" + k.Sort
+		if _, ok := e.w.classes[cls]; !ok {
+			e.fail("visited(k): no map with key sort %s is iterated", k.Sort)
+		}
+		return Val{S: "(select (select " + e.heapTerm(cls) + " " + it.S + ") " + k.S + ")", Sort: "Bool"}
 	case "callcount":
 		if e.st == nil || len(n.Args) != 1 {
 			e.fail("callcount(name) needs a path state")
